@@ -6,6 +6,23 @@ set -u
 export GOFLAGS=-mod=mod GOPROXY=off
 P=$1; WT=$2; NAME=${3:-$P}
 S=$WT/_seed
+if [ "${PHASE:-all}" = "check" ]; then
+  S=/verif/seeded/$NAME
+  read ORIG CHG EX < $S/.confirm
+  git -C /repo apply $S/patch.diff || { echo "cannot apply to /repo"; exit 2; }
+  /verif/bin/gosmt run -prop $P -no-evidence ${TIER:+-tier $TIER} 2>&1 | grep -v "^\s\|^=== \|^--- \|^PASS\|^ok \|^FAIL\|^$" | tail -6; RC=${PIPESTATUS[0]}
+  git -C /repo checkout -- .
+  echo "check_exit=$RC"
+  python3 - "$P" "$NAME" "$ORIG" "$CHG" "$EX" "$RC" <<'PY'
+import json,sys
+p,name,orig,chg,ex,rc=sys.argv[1:]
+json.dump({"property":p,"seed":name,"demo_on_original_exit":int(orig),"demo_with_change_exit":int(chg),"existing_tests_exit":int(ex),"quick_check_exit":int(rc),
+ "detected": int(rc)==1, "confirmed": int(orig)==0 and int(chg)!=0 and int(ex)==0,
+ "ran":["go test -run TestSeedDemo on a pristine worktree and with the patch applied","go test of the touched packages with the patch","/verif/bin/gosmt run -prop %s (quick) with the patch applied to /repo, then git checkout"%p]},
+ open(f"/verif/seeded/{name}/meta.json","w"),indent=1)
+PY
+  exit 0
+fi
 [ -f $S/patch.diff ] || { echo "no patch"; exit 2; }
 LOC=$(cat $S/demo_location.txt | tr -d '\n ')
 [ -z "$LOC" ] && LOC=.
@@ -37,6 +54,10 @@ git -C /repo worktree remove --force $CW
 mkdir -p /verif/seeded/$NAME
 cp $S/patch.diff $S/zz_seed_demo_test.go $S/notes.md /verif/seeded/$NAME/ 2>/dev/null
 echo "$LOC" > /verif/seeded/$NAME/demo_location.txt
+if [ "${PHASE:-all}" = "confirm" ]; then
+  echo "$ORIG $CHG $EX" > /verif/seeded/$NAME/.confirm
+  echo "confirm-only done"; exit 0
+fi
 echo "== property check against the change"
 git -C /repo apply $S/patch.diff || { echo "cannot apply to /repo"; exit 2; }
 /verif/bin/gosmt run -prop $P -no-evidence 2>&1 | grep -v "^\s\|^=== \|^--- \|^PASS\|^ok \|^FAIL\|^$" | tail -6; RC=${PIPESTATUS[0]}
